@@ -204,6 +204,21 @@ Theorem C13_rekey_then_repartition : forall st garm A sup1 fresh1 st1 dgs1 d gid
 Proof. exact rekey_then_repartition. Qed.
 Print Assumptions C13_rekey_then_repartition.
 
+(* re-keying again: only the last key counts; re-keying to the key the entries already carry is the identity --
+   a second re-keying to the same id, and re-keying a fresh partition to its own delegation id (e.g. a partition
+   whose graph was named after the delegation) *)
+Theorem C13_rekey_twice : forall A L d P, wfb A = true -> generate_adms A = Ok L -> In (d, P) L ->
+  forall g1 g2, rewrite_delegations (fst (rewrite_delegations P g1)) g2 = rewrite_delegations P g2.
+Proof. exact rekey_twice. Qed.
+Print Assumptions C13_rekey_twice.
+
+Theorem C13_rekey_idempotent : forall A L d P, wfb A = true -> generate_adms A = Ok L -> In (d, P) L ->
+  forall gid,
+    rewrite_delegations (fst (rewrite_delegations P gid)) gid = (fst (rewrite_delegations P gid), None) /\
+    rewrite_delegations P d = (P, None).
+Proof. exact rekey_idempotent. Qed.
+Print Assumptions C13_rekey_idempotent.
+
 Theorem C13_rekeyed_changes_only_the_key : forall gid n,
   nid (rekeyed gid n) = nid n /\ ncls (rekeyed gid n) = ncls n /\ nstitch (rekeyed gid n) = nstitch n /\
   nprops (rekeyed gid n) = nprops n /\
